@@ -151,7 +151,7 @@ def judgeTotal (j : Json) : R Verdict := do
   let i ← nat (← field j "i")
   let obs ← field j "obs"
   let res ← field obs "result"
-  let key := fnv ((fieldD j "src").compress ++ (fieldD j "quantity").compress ++ (fieldD j "tip").compress ++ (fieldD j "store").compress)
+  let key := fnv ((fieldD j "src").compress ++ (fieldD j "quantity").compress ++ (fieldD j "tip").compress ++ (fieldD j "store").compress ++ (fieldD j "pparams").compress)
   let mut spec : List String := []
   let cls := match res.getObjVal? "class" with | .ok (.str c) => c | _ => "ok"
   if cls.startsWith "panic" then spec := ["no-panic:resolve_tx:" ++ cls]
